@@ -49,9 +49,14 @@ def cases(tier, seed):
                                      hdr={'seed': rng.randrange(1 << 20), 'nfields': rng.randint(1, 4), 'inside': True}, valkind='smooth', **kw)
             d['detection'] = rng.choice(['heuristic', 'thorough'])
         out.append(d)
-    for rate, bs in [(4, (4, 4, 512)), (2, (64, 64, 4)), (2, (8, 8, 256)), (1, (4, 4, 2048))]:
+    for rate, bs in [(4, (4, 4, 512)), (2, (64, 64, 4)), (2, (8, 8, 256)), (1, (4, 4, 2048)), (2, (4, 16, 256)), (2, (16, 4, 256)), (2, (4, 8, 512)), (2, (16, 16, 64)),
+                     (8, (4, 4, 256)), (0.5, (4, 4, 4096))]:
         out.append({'id': 'refuse:%s:%s' % (rate, 'x'.join(map(str, bs))), 'kind': 'refuse', 'cost': 1,
                     'file': files.wspec_desc(rng, (5, 6, 7), rate, bs, version=[0, 2, 9])})
+    # 2D files, also those that share the bit rate and the sample-block length of the supported layout
+    for rate, bs in [(2, (1, 16, 1024)), (2, (1, 4, 4096)), (2, (1, 64, 256)), (4, (1, 16, 512))]:
+        out.append({'id': 'refuse:2d:%s:%s' % (rate, 'x'.join(map(str, bs))), 'kind': 'refuse', 'cost': 1,
+                    'file': files.wspec_desc(rng, (9, 20), rate, bs, version=[0, 2, 9], narr=2)})
     return out
 
 
@@ -91,7 +96,14 @@ def run_case(case, ctx):
             with SgzConverter(path) as c:
                 # the converter is a reader: half of the cases use it before converting (the output must not depend on that)
                 if case.get('prehistory') and sp.stored:
-                    for k in rng.sample(sp.stored, min(len(sp.stored), 2))[::-1]:
+                    # per-word array reads, words that alias another word's stored array first (they do not cover every stored array)
+                    offs = {}
+                    for k_, v_ in c.segy_traceheader_template.items():
+                        if type(v_).__name__ == 'FileOffset':
+                            offs.setdefault(int(v_), []).append(int(k_))
+                    aliases = [ks[j] for ks in offs.values() for j in range(1, len(ks))]
+                    words = (aliases + rng.sample(sp.stored, min(len(sp.stored), 2))[::-1])[:max(2, len(sp.stored))]
+                    for k in words:
                         c.get_tracefield_values(k)
                     c.get_trace(0)
                     if sp.ntr == sp.grid_traces:
